@@ -128,7 +128,7 @@ def run(ctx):
     pool = ThreadPoolExecutor(max_workers=1)
     laws_future = pool.submit(laws)
     # 2. histories from the specification
-    nsim = 2400 if quick else 24000
+    nsim = 2400 if quick else 72000
     t0 = time.time()
     scripts = generate(ctx, nsim)
     vlib.log("x10: %d histories generated in %.1fs" % (len(scripts), time.time() - t0))
